@@ -212,7 +212,7 @@ func (o *gobs) term(op GOp) string {
 	tail := fmt.Sprintf("%s %d %d %s %s %s", res, o.bytes.done0, o.bytes.done1, lib.Z(int64(o.bytes.gate)),
 		lib.Z(int64(o.bytes.ret)), lib.B(o.Exit))
 	switch op.Op {
-	case "W":
+	case "W", "S":
 		return fmt.Sprintf("W %s %s", segs(chunkBytes(op)), tail)
 	case "F":
 		return "Ct false " + tail
@@ -325,10 +325,17 @@ func runGate(c Case) lib.Result {
 		ob.bytes.gate, ob.bytes.ret = -1, -1
 		var q quiet
 		switch op.Op {
-		case "W":
+		case "W", "S":
 			data := chunkBytes(op)
 			ch := make(chan callRes, 1)
-			go writeCall(func() (int, error) { return aw.Write(data) }, ch)
+			if op.Op == "S" {
+				// WriteString: in the model a Write of the string's bytes
+				str := string(data)
+				go writeCall(func() (int, error) { return aw.WriteString(str) }, ch)
+				tags["write-string"] = true
+			} else {
+				go writeCall(func() (int, error) { return aw.Write(data) }, ch)
+			}
 			q = quiesce(consID, limit)
 			select {
 			case r := <-ch:
@@ -426,7 +433,7 @@ func runGate(c Case) lib.Result {
 					}
 				}
 			default:
-				if op.Op == "W" && ob.Res != "blocked" {
+				if (op.Op == "W" || op.Op == "S") && ob.Res != "blocked" {
 					tags["write-during-flush"] = true
 				}
 			}
